@@ -26,12 +26,20 @@ SeedRecycle == \* a slot gets user attributes, is deleted, and its storage is re
   { << [kind |-> "sub", rules |-> << R(0, <<1>>, <<[NoItem EXCEPT !.user2 = 5, !.user = 7]>>, NoCon, 0) >>],
        [kind |-> "sub", rules |-> << R(0, <<1>>, <<I("delete", 0)>>, NoCon, 0) >>],
        [kind |-> "sub", rules |-> << R(1, <<2, 3>>, <<I("insert", c)>>, NoCon, 0) >>],
-       [kind |-> "sub", rules |-> << R(0, <<3>>, <<I("subs", 1)>>, [kind |-> "user2", item |-> 0, val |-> 0], 0),
-                                    R(0, <<4>>, <<I("glyph", 1)>>, [kind |-> "user", item |-> 0, val |-> 0], 0) >>] >> : c \in {3, 4} }
+       [kind |-> "sub", rules |-> << R(0, <<3>>, <<I("subs", 1)>>, [kind |-> "user2", item |-> 0, val |-> 0, f |-> 0], 0),
+                                    R(0, <<4>>, <<I("glyph", 1)>>, [kind |-> "user", item |-> 0, val |-> 0, f |-> 0], 0) >>] >> : c \in {3, 4} }
 SeedOrder ==   \* precedence: longer context first, then earlier rule; overlapping classes; constraints; pre-context
   { << [kind |-> "sub", rules |-> << R(0, <<2>>, <<I("glyph", 3)>>, NoCon, 0), R(0, <<1, 2>>, <<I("subs", 3), NoItem>>, NoCon, r),
-                                    R(0, <<1>>, <<I("subs", 2)>>, [kind |-> "gattr", item |-> 0, val |-> v], 0), R(0, <<2, 2>>, <<I("delete", 0), NoItem>>, NoCon, 0) >>],
+                                    R(0, <<1>>, <<I("subs", 2)>>, [kind |-> "gattr", item |-> 0, val |-> v, f |-> 0], 0), R(0, <<2, 2>>, <<I("delete", 0), NoItem>>, NoCon, 0) >>],
        [kind |-> "sub", rules |-> << R(1, <<3, 1>>, <<I("copy", 0)>>, NoCon, 0), R(1, <<3, 3>>, <<[NoItem EXCEPT !.op = "copy", !.ref = -1]>>, NoCon, 0) >>] >> : r \in {0, -1}, v \in {0, 1} }
+Feat(f, v) == [kind |-> "feat", item |-> 0, val |-> v, f |-> f]
+SetF(f, v) == [NoItem EXCEPT !.sf = f, !.sv = v]
+SeedFeat ==    \* rules selected by feature values; a rule that changes a feature for the rules after it (also in later passes)
+  { << [kind |-> "sub", rules |-> << R(0, <<1>>, <<I("subs", 2)>>, Feat(1, v), 0), R(0, <<3>>, <<I("glyph", 4)>>, Feat(2, 2), 0),
+                                    R(0, <<2, 3>>, <<SetF(1, w), NoItem>>, NoCon, 0) >>],
+       [kind |-> "sub", rules |-> << R(1, <<2, 1>>, <<I("glyph", 3)>>, Feat(1, 1), 0), R(0, <<4>>, <<SetF(2, 3)>>, Feat(2, 0), 0) >>],
+       [kind |-> "pos", rules |-> << R(0, <<3>>, <<[NoItem EXCEPT !.adv = 250]>>, Feat(2, 2), 0), R(0, <<1>>, <<[NoItem EXCEPT !.shift = 40]>>, Feat(1, 0), 0) >>] >> : v \in {0, 1}, w \in {0, 1, 3} }
 Seeds == SeedMarks \cup SeedChains \cup SeedRecycle \cup SeedOrder
 SpecSeeded == InitSeeded(Seeds) /\ [][Next]_vars
+SpecSeededF == InitSeeded(SeedFeat) /\ [][Next]_vars
 =============================================================================
